@@ -287,10 +287,36 @@ func scenarioC04(r *Run) {
 			r.Probe("server-callback-served")
 		}
 	}
+	// records without a single member ([] and scalars): whatever the client makes
+	// of them (ignore, stop), it does not crash - sent last, so that a client that
+	// stops on them fails no operation of this run
+	if !w.sendMemberless() {
+		return
+	}
 	if !w.finish() {
 		return
 	}
 	w.checkMatching(true, false)
+}
+
+// sendMemberless makes the peer send one record that is valid JSON but holds
+// no message at all, and runs to quiescence.
+func (w *cliWorld) sendMemberless() bool {
+	if w.peerClosed || !w.r.Gen.Chance("memberless", 0.3) {
+		return true
+	}
+	rec := []string{`[]`, `[[]]`, `null`, `17`, `[null]`, `""`, `{}`}[w.r.Gen.Int("memberlesskind", 7)]
+	w.causes = append(w.causes, stopCause{Kind: "malformed", Begin: w.seq(), End: -1, Optional: true})
+	w.r.Probe("memberless-record-sent")
+	w.r.Sim.Spawn("p-memberless", func() {
+		w.r.Ev("peer.memberless", "", 0, 0, rec)
+		w.pEnd.Send([]byte(rec))
+	})
+	if !w.r.RunQ() {
+		return false
+	}
+	w.qpoints = append(w.qpoints, w.seq())
+	return true
 }
 
 // ---------------------------------------------------------------------------
@@ -335,12 +361,28 @@ func scenarioC05(r *Run) {
 	s := r.Sample.(map[string]any)
 	s["closes"], s["peer_close_at"], s["recv_faults"], s["send_faults"], s["malformed_at"] = len(w.closes), w.peerCloseAt, fmt.Sprint(w.cEnd.FaultRecvAt), fmt.Sprint(w.cEnd.FaultSendAt), w.malformedAt
 	w.start()
-	if !w.drive(func() { w.checkC05(false) }) {
+	if !w.drive(func() { w.settleOptionalCauses(); w.checkC05(false) }) {
 		return
 	}
+	w.settleOptionalCauses()
 	w.checkC05(false)
 	if r.Failed() {
 		return
+	}
+	if !w.sendMemberless() {
+		return
+	}
+	w.settleOptionalCauses()
+	// OnStop is the client's notice that it has stopped: when the peer hung up or
+	// the channel failed (a definite cause, complete before the last-but-one
+	// quiescent point) it has run by now - nobody has called Close for it
+	if w.cfg.Hooks && len(w.onStop) == 0 && len(w.qpoints) >= 2 {
+		for _, c := range w.causes {
+			if !c.Optional && (c.Kind == "eof" || c.Kind == "error") && c.Begin < w.qpoints[len(w.qpoints)-2] {
+				r.Fail("onstop-count", "the client's connection ended (%s at #%d) two quiescent points ago, yet OnStop has not run (it must not wait for somebody to call Close)", c.Kind, c.Begin)
+				return
+			}
+		}
 	}
 	// operations on a stopped client fail at once and transmit nothing
 	if !w.finish() {
@@ -351,6 +393,61 @@ func scenarioC05(r *Run) {
 		return
 	}
 	w.checkC05(true)
+}
+
+// settleOptionalCauses (at a quiescent point): an event that may or may not end
+// the client - a failed Send, an undecodable record - is looked at again one
+// quiescent point later. Either the client has stopped on it (IsStopped): then
+// it is a cause like any other, with every "must" that follows. Or it has not:
+// then it licenses nothing beyond the fate of the operation whose own Send
+// failed, which has its own rules.
+func (w *cliWorld) settleOptionalCauses() {
+	if len(w.qpoints) < 2 || w.cli == nil {
+		return
+	}
+	prev := w.qpoints[len(w.qpoints)-2]
+	pending := false
+	for _, c := range w.causes {
+		if c.Optional && c.Begin < prev {
+			pending = true
+		}
+	}
+	if !pending {
+		return
+	}
+	stopped, asked := false, false
+	w.r.Sim.Spawn(fmt.Sprintf("z-isstopped%d", len(w.qpoints)), func() {
+		stopped = w.cli.IsStopped()
+		asked = true
+	})
+	if !w.r.RunQ() || !asked {
+		return // the probe itself is stuck (a lock held for good): judged elsewhere
+	}
+	var kept []stopCause
+	for _, c := range w.causes {
+		if c.Optional && c.Begin < prev {
+			switch {
+			case stopped && len(w.causes) == 1:
+				// nothing else has happened: the client stopped on this
+				c.Optional = false
+				w.r.Probe("optional-cause-did-stop-the-client")
+			case !stopped:
+				w.r.Probe("optional-cause-survived")
+				continue // the client is up: the event changed nothing, drop it
+			}
+		}
+		kept = append(kept, c)
+	}
+	w.causes = kept
+}
+
+func (w *cliWorld) anyDefiniteCauseBefore(seq int) bool {
+	for _, c := range w.causes {
+		if !c.Optional && c.Begin < seq {
+			return true
+		}
+	}
+	return false
 }
 
 func (w *cliWorld) firstCause() int {
@@ -652,6 +749,10 @@ func (w *cliWorld) checkC05Final() {
 					first = false
 				}
 			}
+			if first && (a.Kind == "eof" || a.Kind == "error") && w.haveCloseArg && sameErrValue(w.onStopErr[0], w.closeArg) {
+				r.Fail("onstop-cause", "OnStop reported %q, which is what this client reports for an orderly Close, but the first stop cause, complete before any other began, was %s (#%d): the cause of the stop is lost", w.onStop[0], a.Kind, a.Begin)
+				return
+			}
 			if first && !same(a.Kind) {
 				r.Fail("onstop-cause", "OnStop reported %q (%s) but the first stop cause, complete before any other began, was %s: %+v", w.onStop[0], kind, a.Kind, w.causes)
 				return
@@ -833,4 +934,19 @@ func mentionsID(raw, id string) bool {
 		}
 	}
 	return false
+}
+
+// sameErrValue: two error values that cannot be told apart (the same value, or
+// both nil, or equal texts of values the harness does not own).
+func sameErrValue(a, b error) bool {
+	if a == nil || b == nil {
+		return a == nil && b == nil
+	}
+	if a == b {
+		return true
+	}
+	if errors.Is(a, ErrInjected) || errors.Is(a, io.EOF) || errors.Is(b, ErrInjected) || errors.Is(b, io.EOF) {
+		return false
+	}
+	return a.Error() == b.Error()
 }
